@@ -27,19 +27,36 @@ Compatible(f, c) ==
     [] c = "exact" -> f = "strict"
     [] c \in {"missing", "varargs", "short"} -> f = "plain"
     [] c = "few" -> FALSE
-VARIABLES res, hist
-vars == <<res, hist>>
-Init == res = [f \in Fields |-> "none"] /\ hist = <<>>
-MustRaise(r) == \E f \in Fields : ~Compatible(f, r[f])
+\* Three levels of resolvers: the field's own (res[f]), the default resolver of its type (tdef: register_default_resolver) and the
+\* schema wide default (sdef: schema.default_resolver = f, the documented assignment).  The resolver that SERVES a field - and whose
+\* signature therefore matters - is the first one set in that order, as in the executor; without any, the library's own default
+\* resolver serves it (always compatible).
+DefaultClasses == {"kwargs", "missing"}
+VARIABLES res, tdef, sdef, hist
+vars == <<res, tdef, sdef, hist>>
+Init == res = [f \in Fields |-> "none"] /\ tdef = "none" /\ sdef = "none" /\ hist = <<>>
+Serving(f) == IF res[f] # "none" THEN res[f] ELSE IF tdef # "none" THEN tdef ELSE sdef
+MustRaise == \E f \in Fields : ~Compatible(f, Serving(f))
 Register(f, c) == /\ Len(hist) < MaxOps
                   /\ res' = [res EXCEPT ![f] = c]
                   /\ hist' = Append(hist, [op |-> "register", f |-> f, c |-> c, raises |-> FALSE])
+                  /\ UNCHANGED <<tdef, sdef>>
+RegisterTypeDefault(c) == /\ Len(hist) < MaxOps
+                          /\ tdef' = c
+                          /\ hist' = Append(hist, [op |-> "type-default", f |-> "", c |-> c, raises |-> FALSE])
+                          /\ UNCHANGED <<res, sdef>>
+\* assigning the schema wide default is a reassignment of resolvers like the others: the next verdict is that of the new state
+\* (building a schema from SDL already validates it once, so the documented assignment always comes after a validation)
+SetSchemaDefault(c) == /\ Len(hist) < MaxOps
+                       /\ sdef' = c
+                       /\ hist' = Append(hist, [op |-> "schema-default", f |-> "", c |-> c, raises |-> FALSE])
+                       /\ UNCHANGED <<res, tdef>>
 Validate == /\ Len(hist) < MaxOps
-            /\ hist' = Append(hist, [op |-> "validate", f |-> "", c |-> "", raises |-> MustRaise(res)])
-            /\ UNCHANGED res
-Next == Validate \/ \E f \in Fields, c \in Classes : Register(f, c)
+            /\ hist' = Append(hist, [op |-> "validate", f |-> "", c |-> "", raises |-> MustRaise])
+            /\ UNCHANGED <<res, tdef, sdef>>
+Next == Validate \/ (\E f \in Fields, c \in Classes : Register(f, c)) \/ (\E c \in DefaultClasses : RegisterTypeDefault(c) \/ SetSchemaDefault(c))
 Spec == Init /\ [][Next]_vars
 \* a register directly followed by another register of the same field is subsumed; keep sequences that end with validate
-Interesting == Len(hist) = MaxOps /\ hist[Len(hist)].op = "validate" /\ \E i \in 1..Len(hist) : hist[i].op = "register"
+Interesting == Len(hist) = MaxOps /\ hist[Len(hist)].op = "validate" /\ \E i \in 1..Len(hist) : hist[i].op # "validate"
 Emit == Interesting => PrintT("MEM " \o ToJson(hist))
 =============================================================================
